@@ -487,6 +487,14 @@ where
             "rt" => self.rt(case),
             "de" => self.de(case),
             "ser" => self.ser(case),
+            "serarb" => {
+                // serialize a seeded arbitrary value of the type
+                let mut g = Gen::new(case["seed"].as_u64().unwrap_or(1), 6);
+                let x = T::arb(&mut g);
+                let mut s = ser_with_schedule(&x, &json!({}));
+                s["v"] = x.to_aval();
+                s
+            }
             other => json!({"error": format!("unknown cmd {other}")}),
         }
     }
